@@ -120,7 +120,7 @@ Proof.
   - destruct l as [|a l]; [simpl; lia|].
     change (firstn (S (S t)) (a :: l)) with (a :: firstn (S t) l).
     change (firstn (S t) (a :: l)) with (a :: firstn t l).
-    simpl count_sym. rewrite IH. simpl nth_error. lia.
+    cbn [count_sym nth_error]. rewrite IH. lia.
 Qed.
 
 Lemma win_count_S W s st k :
